@@ -6,6 +6,7 @@ import (
 	"fmt"
 	"os"
 	"path/filepath"
+	"runtime"
 	"strings"
 	"sync"
 	"testing"
@@ -44,6 +45,9 @@ type c11Case struct {
 	// Acknowledge call outside it
 	Eager        int  `json:"eager,omitempty"`
 	EagerOutside bool `json:"eager_outside,omitempty"`
+	// StallBoundMs overrides the 2 s no-send bound (the start-up scripts run
+	// with the process kept busy on purpose)
+	StallBoundMs int `json:"stall_bound_ms,omitempty"`
 }
 
 var c11SizeBytes = []int{12, 200, 5000}
@@ -438,7 +442,11 @@ func runC11(s *sut.SUT, cs c11Case) (rule, detail string, nontrivial bool) {
 				}
 				return "", ""
 			}
-			deadline := time.Now().Add(2 * time.Second)
+			bound := 2 * time.Second
+			if cs.StallBoundMs > 0 {
+				bound = time.Duration(cs.StallBoundMs) * time.Millisecond
+			}
+			deadline := time.Now().Add(bound)
 			progressed := false
 			for time.Now().Before(deadline) {
 				_, _, s2, _ := conn.snapshot()
@@ -467,8 +475,15 @@ func runC11(s *sut.SUT, cs c11Case) (rule, detail string, nontrivial bool) {
 						rows.Close()
 					}
 					fmt.Printf("   now=%s outstanding=%v parked=%v\n", time.Now().UTC().Format(time.RFC3339Nano), conn.out, sut.TheGate)
+					buf := make([]byte, 1<<20)
+					buf = buf[:runtime.Stack(buf, true)]
+					for _, g := range strings.Split(string(buf), "\n\n") {
+						if strings.Contains(g, "message-streamer.go") || strings.Contains(g, "get-subscription-messages.go") {
+							fmt.Printf("   GOROUTINE %s\n", strings.ReplaceAll(g, "\n", "\n      "))
+						}
+					}
 				}
-				return "stall", fmt.Sprintf("after %s: %d messages / %d bytes are outstanding on the stream (limits %d / %d), %d deliverable messages remain (sizes %v) of which at least one fits, but nothing was sent for 2 s", after, n, b, cs.MaxMsgs, cs.MaxBytes, len(unsent), unsent)
+				return "stall", fmt.Sprintf("after %s: %d messages / %d bytes are outstanding on the stream (limits %d / %d), %d deliverable messages remain (sizes %v) of which at least one fits, but nothing was sent for %v", after, n, b, cs.MaxMsgs, cs.MaxBytes, len(unsent), unsent, bound)
 			}
 		}
 	}
@@ -749,6 +764,59 @@ func init() {
 		}
 		if misses == 3 || (misses > 0 && lastRule != "stall") {
 			violate(t, prop, failure{Rule: lastRule, Detail: last})
+		}
+	}
+}
+
+// TestC11StartupRace: the first delivery of a stream is acknowledged with an
+// Acknowledge call outside the stream the moment it is sent, while the process
+// is kept busy so that goroutines start late. The capacity freed by that ack
+// has to show like any other (the second message must be sent).
+func TestC11StartupRace(t *testing.T) {
+	defer reportFailure(t, "C11")
+	s := getSUT(t)
+	defer closeSUT()
+	stop := make(chan struct{})
+	for i := 0; i < 2*runtime.NumCPU(); i++ {
+		go func() {
+			for {
+				select {
+				case <-stop:
+					return
+				default:
+				}
+			}
+		}()
+	}
+	defer close(stop)
+	n := pick(40, 150)
+	for i := 0; i < n; i++ {
+		cs := c11Case{Kind: "stream", MaxMsgs: 1, MaxBytes: 1 << 20, Sizes: []int{0, 0}, Eager: 1, EagerOutside: i%4 != 3, StallBoundMs: 6000}
+		rule, detail, _ := runC11(s, cs)
+		stats.C.EvalN(1)
+		stats.C.Class("startup-scripts", 1)
+		if rule == "harness" {
+			stats.C.Class("harness-skip", 1)
+			continue
+		}
+		if rule == "stall" {
+			// the stall itself is the evidence (it depends on goroutine timing and
+			// need not repeat); what must repeat is that the script is otherwise fine
+			ok := 0
+			for k := 0; k < 3; k++ {
+				if r2, _, _ := runC11(s, cs); r2 == "" {
+					ok++
+				}
+			}
+			if ok == 0 {
+				stats.C.Class("inconclusive-stall", 1)
+				stats.C.Note("inconclusive: startup script stalled in every run: %s", detail)
+				continue
+			}
+		}
+		if rule != "" {
+			violate(t, "C11", failure{Rule: rule, Detail: "first delivery acknowledged the moment it is sent, process busy: " + detail, Sig: map[string]any{"rule": rule, "startup": true}, Replay: cs})
+			return
 		}
 	}
 }
